@@ -34,23 +34,28 @@ pub open spec fn heffect(b: u8) -> int {
 }
 
 //@struct file=yarel/src/chunk.rs name=Chunk keepfields=code
-//@struct file=yarel/src/compiler.rs name=Compiler keepfields=kind,chunk,in_try_block,loop_stack addfield "pub ghost hdepth: int" addfield "pub ghost loop_hdepth: Seq<int>"
+//@struct file=yarel/src/compiler.rs name=Compiler keepfields=kind,chunk,try_depth,loop_stack addfield "pub ghost hdepth: int"
 impl Compiler {
     //@fn file=yarel/src/compiler.rs path=Compiler::current_loop_header ret=r
     //@  subst "self.loop_stack.last().copied()" => "option_copied(self.loop_stack.last())"
     //@  ensures r is Some <==> self.loop_stack@.len() > 0
+    //@  ensures r matches Some(h) ==> h == self.loop_stack@.last()
     //@end
     #[verifier::external_body]
     fn push_break(&mut self, pos: usize) -> (r: Result<(), CompilerError>)
         ensures final(self).ctl() == old(self).ctl(), final(self).chunk == old(self).chunk,
     { unimplemented!() }
     // everything the handler bookkeeping depends on
-    pub open spec fn ctl(&self) -> (int, Seq<int>, bool, FunctionKind, nat) {
-        (self.hdepth, self.loop_hdepth, self.in_try_block, self.kind, self.loop_stack@.len())
+    pub open spec fn ctl(&self) -> (int, usize, FunctionKind, Seq<(usize, usize, usize)>) {
+        (self.hdepth, self.try_depth, self.kind, self.loop_stack@)
+    }
+    // the compiler's own counter of enclosing try blocks agrees with the handler model; loops recorded it at their header
+    pub open spec fn coupled(&self) -> bool {
+        self.hdepth == self.try_depth && (forall|i: int| 0 <= i < self.loop_stack@.len() ==> (#[trigger] self.loop_stack@[i]).2 <= self.try_depth)
     }
 }
 #[verifier::external_body]
-fn option_copied(o: Option<&(usize, usize)>) -> (r: Option<(usize, usize)>)
+fn option_copied(o: Option<&(usize, usize, usize)>) -> (r: Option<(usize, usize, usize)>)
     ensures o is None ==> r is None, o matches Some(p) ==> r == Some(*p),
 { o.copied() }
 
@@ -76,20 +81,20 @@ impl Parser {
     #[verifier::external_body]
     fn emit_byte(&mut self, byte: u8)
         ensures final(self).code() == old(self).code().push(byte), final(self).comp.hdepth == old(self).comp.hdepth + heffect(byte),
-            final(self).comp.loop_hdepth == old(self).comp.loop_hdepth, final(self).comp.in_try_block == old(self).comp.in_try_block,
+            final(self).comp.try_depth == old(self).comp.try_depth,
             final(self).comp.kind == old(self).comp.kind, final(self).comp.loop_stack == old(self).comp.loop_stack, final(self).had_error == old(self).had_error,
     { unimplemented!() }
     #[verifier::external_body]
     fn emit_bytes(&mut self, bytes: [u8; 2])
         ensures final(self).code() == old(self).code().push(bytes[0]).push(bytes[1]), final(self).comp.hdepth == old(self).comp.hdepth + heffect(bytes[0]),
-            final(self).comp.loop_hdepth == old(self).comp.loop_hdepth, final(self).comp.in_try_block == old(self).comp.in_try_block,
+            final(self).comp.try_depth == old(self).comp.try_depth,
             final(self).comp.kind == old(self).comp.kind, final(self).comp.loop_stack == old(self).comp.loop_stack, final(self).had_error == old(self).had_error,
     { unimplemented!() }
     #[verifier::external_body]
     fn emit_jump(&mut self, instruction: OpCode) -> (r: usize)
         ensures final(self).code() == old(self).code().push(opcode_byte(instruction)).push(0xffu8).push(0xffu8),
             final(self).comp.hdepth == old(self).comp.hdepth + heffect(opcode_byte(instruction)),
-            final(self).comp.loop_hdepth == old(self).comp.loop_hdepth, final(self).comp.in_try_block == old(self).comp.in_try_block,
+            final(self).comp.try_depth == old(self).comp.try_depth,
             final(self).comp.kind == old(self).comp.kind, final(self).comp.loop_stack == old(self).comp.loop_stack, final(self).had_error == old(self).had_error,
     { unimplemented!() }
     #[verifier::external_body]
@@ -126,49 +131,64 @@ impl Parser {
     #[verifier::external_body]
     fn compiler_error(&mut self, error: CompilerError) ensures final(self).comp == old(self).comp, final(self).had_error { unimplemented!() }
 
+    // One `opcode` per try block between this point and try-nesting depth `outer_try_depth`.
+    //@fn file=yarel/src/compiler.rs path=Parser::emit_try_exits
+    //@  requires outer_try_depth <= old(self).comp.try_depth
+    //@  ensures final(self).code().len() == old(self).code().len() + (old(self).comp.try_depth - outer_try_depth)
+    //@  ensures final(self).comp.hdepth == old(self).comp.hdepth + (old(self).comp.try_depth - outer_try_depth) * heffect(opcode)
+    //@  ensures final(self).comp.try_depth == old(self).comp.try_depth, final(self).comp.kind == old(self).comp.kind, final(self).comp.loop_stack == old(self).comp.loop_stack, final(self).had_error == old(self).had_error
+    //@  ensures old(self).comp.try_depth > outer_try_depth ==> final(self).code().last() == opcode
+    //@  ensures old(self).comp.try_depth == outer_try_depth ==> final(self).code() == old(self).code()
+    //@  loop 0 iter it
+    //@  loop 0 invariant it.snapshot.start == outer_try_depth, it.snapshot.end == old(self).comp.try_depth
+    //@  loop 0 invariant self.code().len() == old(self).code().len() + it.index@, self.comp.hdepth == old(self).comp.hdepth + it.index@ * heffect(opcode)
+    //@  loop 0 invariant self.comp.try_depth == old(self).comp.try_depth, self.comp.kind == old(self).comp.kind, self.comp.loop_stack == old(self).comp.loop_stack, self.had_error == old(self).had_error
+    //@  loop 0 invariant it.index@ > 0 ==> self.code().last() == opcode
+    //@  loop 0 invariant it.index@ == 0 ==> self.code() == old(self).code()
+    //@  at loop0.start proof { assert((it.index@ + 1) * heffect(opcode) == it.index@ * heffect(opcode) + heffect(opcode)) by (nonlinear_arith); }
+    //@end
+
     // try statement: whatever path control takes through the emitted code (normal end of the try block, exception
     // caught by the catch block, exception passing through the finally block), the function's handler stack is as
     // deep afterwards as before, and a `return` parked by JumpFinally finds an EndFinally at the handler's finally
     // address (otherwise the parked return would never resume).
     //@fn file=yarel/src/compiler.rs path=Parser::try_statement
     //@  rewrite R21
-    //@  requires old(self).comp.hdepth >= 0
+    //@  requires old(self).comp.coupled(), old(self).comp.try_depth < usize::MAX
     //@  ensures @handlers_balanced_after_try_statement final(self).had_error || final(self).comp.hdepth == old(self).comp.hdepth
     //@  ensures @parked_return_resumes_at_end_finally final(self).had_error || final(self).code().last() == opcode_byte(OpCode::EndFinally)
-    //@  ensures final(self).comp.in_try_block == old(self).comp.in_try_block, final(self).comp.loop_hdepth == old(self).comp.loop_hdepth
+    //@  ensures final(self).comp.try_depth == old(self).comp.try_depth, final(self).comp.loop_stack@ == old(self).comp.loop_stack@
+    //@  assert @try_block_compiled_one_level_deeper before_stmt "self.compiler_mut().try_depth -= 1" self.comp.hdepth == old(self).comp.hdepth + 1 && self.comp.try_depth == old(self).comp.try_depth + 1
     //@end
 
-    // return: when the Return instruction executes, the function must have removed every handler it installed
-    // (`return` inside a try block goes through JumpFinally, which removes the innermost one).
+    // return: when the Return instruction executes, the function must have removed every handler it installed: one
+    // JumpFinally per enclosing try block (each removes the innermost handler and runs that try statement's finally).
     //@fn file=yarel/src/compiler.rs path=Parser::emit_return
     //@  rewrite R21
     //@  subst "self.compiler().kind == FunctionKind::Initialiser" => "function_kind_eq(&self.compiler().kind, FunctionKind::Initialiser)"
-    //@  requires old(self).comp.hdepth >= 0, old(self).comp.in_try_block <==> old(self).comp.hdepth > 0
-    //@  assert @return_in_try_block_goes_through_jump_finally before_stmt "self.emit_byte(opcode_u8(OpCode::Return))" self.comp.hdepth == old(self).comp.hdepth - (if old(self).comp.in_try_block { 1int } else { 0int })
-    //@  assert @return_leaves_no_handler_installed after_stmt "self.emit_byte(opcode_u8(OpCode::Return))" self.comp.hdepth == 0
+    //@  requires old(self).comp.coupled()
+    //@  assert @return_leaves_no_handler_installed before_stmt "self.emit_byte(opcode_u8(OpCode::Return))" self.comp.hdepth == 0
+    //@  ensures final(self).comp.try_depth == old(self).comp.try_depth
     //@end
     //@fn file=yarel/src/compiler.rs path=Parser::return_statement
     //@  rewrite R21
     //@  subst "self.compiler().kind == FunctionKind::Script" => "function_kind_eq(&self.compiler().kind, FunctionKind::Script)"
     //@  subst "self.compiler().kind == FunctionKind::Initialiser" => "function_kind_eq(&self.compiler().kind, FunctionKind::Initialiser)"
-    //@  requires old(self).comp.hdepth >= 0, old(self).comp.in_try_block <==> old(self).comp.hdepth > 0
-    //@  assert @return_in_try_block_goes_through_jump_finally before_stmt "self.emit_byte(opcode_u8(OpCode::Return))" self.comp.hdepth == old(self).comp.hdepth - (if old(self).comp.in_try_block { 1int } else { 0int })
-    //@  assert @return_leaves_no_handler_installed after_stmt "self.emit_byte(opcode_u8(OpCode::Return))" self.comp.hdepth == 0
+    //@  requires old(self).comp.coupled()
+    //@  assert @return_leaves_no_handler_installed before_stmt "self.emit_byte(opcode_u8(OpCode::Return))" self.comp.hdepth == 0
     //@end
 
-    // break / continue: the jump leaves every try statement between here and the loop; their handlers must have been
-    // removed by the time control arrives at the loop exit / loop header (`loop_hdepth.last()`: the depth there).
+    // break / continue: the jump leaves every try block entered since the loop header; their handlers must have been
+    // removed by the time control arrives at the loop exit / loop header (`loop_stack.last().2`: the depth there).
     //@fn file=yarel/src/compiler.rs path=Parser::break_statement
     //@  rewrite R21
-    //@  requires old(self).comp.loop_hdepth.len() == old(self).comp.loop_stack@.len()
-    //@  requires old(self).comp.loop_stack@.len() > 0 ==> old(self).comp.hdepth >= old(self).comp.loop_hdepth.last()
-    //@  assert @break_removes_handlers_of_left_try_blocks before_stmt "let break_pos = self.emit_jump(" self.comp.hdepth == self.comp.loop_hdepth.last()
+    //@  requires old(self).comp.coupled()
+    //@  assert @break_removes_handlers_of_left_try_blocks before_stmt "let break_pos = self.emit_jump(" self.comp.hdepth == self.comp.loop_stack@.last().2
     //@end
     //@fn file=yarel/src/compiler.rs path=Parser::continue_statement
     //@  rewrite R21
-    //@  requires old(self).comp.loop_hdepth.len() == old(self).comp.loop_stack@.len()
-    //@  requires old(self).comp.loop_stack@.len() > 0 ==> old(self).comp.hdepth >= old(self).comp.loop_hdepth.last()
-    //@  assert @continue_removes_handlers_of_left_try_blocks before_stmt "self.emit_loop(" self.comp.hdepth == self.comp.loop_hdepth.last()
+    //@  requires old(self).comp.coupled()
+    //@  assert @continue_removes_handlers_of_left_try_blocks before_stmt "self.emit_loop(" self.comp.hdepth == self.comp.loop_stack@.last().2
     //@end
 }
 
